@@ -123,15 +123,15 @@ Qed.
 (* ---------------------------------------------------------------------------------------------- *)
 (* timestamp: all 65536 two-byte values by computation *)
 
-Fixpoint all_below (n : nat) (p : N -> bool) : bool :=
-  match n with O => true | S k => p (N.of_nat k) && all_below k p end.
+Fixpoint all_from (n : nat) (t0 : N) (p : N -> bool) : bool :=
+  match n with O => true | S k => p t0 && all_from k (N.succ t0) p end.
 
-Lemma all_below_spec n p : all_below n p = true -> forall t, (N.to_nat t < n)%nat -> p t = true.
+Lemma all_from_spec n p : forall t0, all_from n t0 p = true ->
+  forall t, t0 <= t -> t < t0 + N.of_nat n -> p t = true.
 Proof.
-  induction n as [|k IH]; intros H t Ht; [lia|]. cbn [all_below] in H. apply andb_true_iff in H as [H1 H2].
-  destruct (Nat.eq_dec (N.to_nat t) k) as [E|E].
-  - subst k. rewrite N2Nat.id in H1. exact H1.
-  - apply IH; [assumption|lia].
+  induction n as [|k IH]; intros t0 H t Hlo Hhi; [lia|]. cbn [all_from] in H. apply andb_true_iff in H as [H1 H2].
+  destruct (N.eq_dec t t0) as [->|E]; [exact H1|].
+  apply (IH (N.succ t0) H2); lia.
 Qed.
 
 Lemma text_eqb_eq : forall a b, text_eqb a b = true -> a = b.
@@ -140,12 +140,12 @@ Proof.
   apply andb_true_iff in H as [H1 H2]. apply N.eqb_eq in H1. subst. f_equal. apply IH. exact H2.
 Qed.
 
-Lemma timestamp_all : all_below (N.to_nat 65536) (fun t => text_eqb (format_timestamp t) (ts_text t)) = true.
-Proof. vm_compute. reflexivity. Qed.
+Lemma timestamp_all : all_from (N.to_nat 65536) 0 (fun t => text_eqb (format_timestamp t) (ts_text t)) = true.
+Proof. vm_cast_no_check (eq_refl true). Qed.
 
 Theorem format_timestamp_spec t : t < 65536 -> format_timestamp t = ts_text t.
 Proof.
-  intros H. apply text_eqb_eq. apply (all_below_spec _ _ timestamp_all). lia.
+  intros H. apply text_eqb_eq. apply (all_from_spec _ _ 0 timestamp_all); lia.
 Qed.
 
 (* ---------------------------------------------------------------------------------------------- *)
